@@ -111,6 +111,7 @@ pub struct HttpCase {
 pub enum Case {
     Http(HttpCase),
     Grpc(grpcx::GrpcCase),
+    GrpcConn(grpcx::ConnCase),
 }
 
 fn tokval_strategy() -> impl Strategy<Value = TokVal> {
@@ -655,6 +656,7 @@ pub fn run_case(env: &Env, case: &Case) -> CaseReport {
     match case {
         Case::Http(h) => run_http(env, h, env.strict),
         Case::Grpc(g) => grpcx::run_grpc(env, g),
+        Case::GrpcConn(g) => grpcx::run_conn(env, g),
     }
 }
 
@@ -860,7 +862,7 @@ fn fin(env: Option<&Env>) -> Finish {
     }
     Finish {
         level: "exploration",
-        rule: "HTTP: discovered in-scope routes x 6 methods x {none + 5 carriers x 6 token values} in canonical spelling (complete matrix) + random spellings (1-3 of: trailing/double slash, case, percent-escape, ;param, /./, /zz/.., static-file suffix) with random carrier/value/decoy; restart tier (label restart_tier): generated schedules on a node with a 5 s token TTL and snapshot threshold 10 - logins, write bursts (snapshots built at generated token ages), kill -9, generated down time, restart (optionally a second restart from the same files): every token older than TTL + 1.5 s must be refused through every carrier, a fresh login must be served; gRPC: every request type constant + random type strings x session header {none, empty, garbage, never issued, expired, valid} x header key x cluster token {none, empty, prefix, wrong, right} x bi-stream {yes,no}. Non-trivial = the request line reaches a handler when sent with a valid token (HTTP) / the type is served when authorised (gRPC).".to_string(),
+        rule: "HTTP: discovered in-scope routes x 6 methods x {none + 5 carriers x 6 token values} in canonical spelling (complete matrix) + random spellings (1-3 of: trailing/double slash, case, percent-escape, ;param, /./, /zz/.., static-file suffix) with random carrier/value/decoy; restart tier (label restart_tier): generated schedules on a node with a 5 s token TTL and snapshot threshold 10 - logins, write bursts (snapshots built at generated token ages), kill -9, generated down time, restart (optionally a second restart from the same files): every token older than TTL + 1.5 s must be refused through every carrier, a fresh login must be served; gRPC connection histories (label grpc_connection_history): 2..8 data requests on ONE registered connection of the node with the 2 s token TTL, each with {no, garbage, never-issued, the history's freshly issued} token in either header, with generated waits (none, < 600 ms, until the fresh token is older than TTL + 1.5 s): every request without a token that is valid at that moment must be refused whatever the connection presented before, refused writes change nothing (non-trivial: a refusal that follows a served request on the same connection); gRPC: every request type constant + random type strings x session header {none, empty, garbage, never issued, expired, valid} x header key x cluster token {none, empty, prefix, wrong, right} x bi-stream {yes,no}. Non-trivial = the request line reaches a handler when sent with a valid token (HTTP) / the type is served when authorised (gRPC).".to_string(),
         assumptions,
         exhaustive: None,
     }
@@ -957,6 +959,14 @@ fn main_inner(ctx: &Ctx) -> i32 {
             }
         }
     }
+    // tier 2b: histories of several requests on one gRPC connection (token presented earlier, token that expires
+    // while the connection stays open)
+    if failure.is_none() {
+        let env2 = env.clone();
+        let t0 = Instant::now();
+        failure = run_cases(ctx, &stats, grpcx::conn_case_strategy as fn() -> _, ctx.tier.pick(64, 1_500), threads, 60, move |c: &Case| run_case(&env2, c));
+        stats.set_extra("wall_grpc_connection_histories_s", serde_json::json!(t0.elapsed().as_secs_f64()));
+    }
     // tier 3: random spellings / carriers
     if failure.is_none() {
         let env2 = env.clone();
@@ -999,6 +1009,7 @@ impl<'a> StrictView<'a> {
         match case {
             Case::Http(h) => run_http(self.0, h, true),
             Case::Grpc(g) => grpcx::run_grpc(self.0, g),
+            Case::GrpcConn(g) => grpcx::run_conn(self.0, g),
         }
     }
     fn is_known(&self, case: &Case) -> bool {
@@ -1014,7 +1025,7 @@ impl<'a> StrictView<'a> {
                     None => false,
                 }
             }
-            Case::Grpc(_) => false,
+            Case::Grpc(_) | Case::GrpcConn(_) => false,
         }
     }
 }
